@@ -3,9 +3,13 @@
 package main
 
 import (
+	"encoding/hex"
+	"encoding/json"
 	"fmt"
 	"os"
 	"sort"
+	"strings"
+	"unicode/utf8"
 
 	"lunar/aggregation-plugin/common"
 	"lunar/aggregation-plugin/discovery"
@@ -25,6 +29,42 @@ type Rec struct {
 	Cons     string `json:"consumer_tag"`
 	Icpt     string `json:"interceptor"`
 	Internal bool   `json:"internal"`
+}
+
+// Replay files are JSON: a key field that is not valid UTF-8 (or starts with
+// "hex:") travels as "hex:" + its bytes in hexadecimal.
+func encBytes(s string) string {
+	if utf8.ValidString(s) && !strings.HasPrefix(s, "hex:") {
+		return s
+	}
+	return "hex:" + hex.EncodeToString([]byte(s))
+}
+
+func decBytes(s string) string {
+	if h, ok := strings.CutPrefix(s, "hex:"); ok {
+		if b, err := hex.DecodeString(h); err == nil {
+			return string(b)
+		}
+	}
+	return s
+}
+
+type recJSON Rec
+
+func (r Rec) MarshalJSON() ([]byte, error) {
+	x := recJSON(r)
+	x.Method, x.URL, x.Cons, x.Icpt = encBytes(r.Method), encBytes(r.URL), encBytes(r.Cons), encBytes(r.Icpt)
+	return json.Marshal(x)
+}
+
+func (r *Rec) UnmarshalJSON(b []byte) error {
+	var x recJSON
+	if err := json.Unmarshal(b, &x); err != nil {
+		return err
+	}
+	x.Method, x.URL, x.Cons, x.Icpt = decBytes(x.Method), decBytes(x.URL), decBytes(x.Cons), decBytes(x.Icpt)
+	*r = Rec(x)
+	return nil
 }
 
 // ---------------------------------------------------------------- observations
